@@ -247,10 +247,10 @@ func ruleReadInvokes(c *Ctx, r *Report, prefix string) {
 				fld := "?"
 				if u, ok := call.Call.Value.(*ssa.UnOp); ok {
 					if fa, ok := u.X.(*ssa.FieldAddr); ok {
-						fld = fieldOfAddr(fa).Name()
+						fld = refNameOf(fieldOfAddr(fa))
 						if pt, ok := fa.X.Type().Underlying().(*types.Pointer); ok {
 							if nt, ok := pt.Elem().(*types.Named); ok {
-								fld = nt.Obj().Name() + "." + fld
+								fld = refNameOf(nt.Obj()) + "." + fld
 							}
 						}
 					}
